@@ -31,6 +31,9 @@ type fakeS3 struct {
 	failAt   map[int]bool
 	bodyFail map[int]bool // the GET with this call index returns a body that errors after half the bytes
 	gate     func(kind string)
+	// withLen: GET responses carry ContentLength (and ETag) the way the real service does; without it
+	// only Body is filled in (what a chunked / transforming endpoint or a minimal S3Interface hands back)
+	withLen bool
 }
 
 var errFakeS3 = errors.New("verif: injected S3 error")
@@ -90,7 +93,13 @@ func (f *fakeS3) GetObjectWithContext(ctx aws.Context, in *s3.GetObjectInput, op
 		return nil, awserr.NewRequestFailure(awserr.New(s3.ErrCodeNoSuchKey, "The specified key does not exist.", nil), 404, "verif-request")
 	}
 	if bf {
+		if f.withLen {
+			return &s3.GetObjectOutput{Body: &failingReader{data: b}, ContentLength: aws.Int64(int64(len(b)))}, nil
+		}
 		return &s3.GetObjectOutput{Body: &failingReader{data: b}}, nil
+	}
+	if f.withLen {
+		return &s3.GetObjectOutput{Body: io.NopCloser(bytes.NewReader(b)), ContentLength: aws.Int64(int64(len(b))), ETag: aws.String("\"verif\"")}, nil
 	}
 	return &s3.GetObjectOutput{Body: io.NopCloser(bytes.NewReader(b))}, nil
 }
@@ -124,10 +133,16 @@ func c18Backends(tmpBase string) []backend {
 		d, _ := os.MkdirTemp(tmpBase, "f")
 		return file.NewPersistForPath(d), nil, func() { os.RemoveAll(d) }
 	}})
-	for _, bp := range [][2]string{{"bucket-a", ""}, {"bucket-b", "pre/fix-"}, {"b", "x/"}} {
+	for i, bp := range [][2]string{{"bucket-a", ""}, {"bucket-b", "pre/fix-"}, {"b", "x/"}, {"bucket-a", "len/"}} {
 		bp := bp
-		bs = append(bs, backend{name: "s3(" + bp[0] + "," + bp[1] + ")", bucket: bp[0], prefix: bp[1], mk: func() (mast.Persist, *fakeS3, func()) {
+		withLen := i%2 == 1
+		nm := "s3(" + bp[0] + "," + bp[1] + ")"
+		if withLen {
+			nm += "+Content-Length"
+		}
+		bs = append(bs, backend{name: nm, bucket: bp[0], prefix: bp[1], mk: func() (mast.Persist, *fakeS3, func()) {
 			f := newFakeS3()
+			f.withLen = withLen
 			p := masts3.NewPersist(f, "http://endpoint", bp[0], bp[1])
 			return &p, f, func() {}
 		}})
